@@ -47,7 +47,6 @@ theorem searchList_some {α : Type} (l : List α) (cmp : α → Ordering) (i : N
   · next j hj =>
     cases h
     have := (binarySearch_ok _ _ _ hj).2
-    simp only at this
     split at this
     · next x hx => exact ⟨x, hx, this⟩
     · cases this
@@ -92,12 +91,13 @@ theorem findRange_eq {α : Type} (l : List α) (cmp : α → Ordering) (r : List
       conv => lhs; rw [← List.take_append_drop mid l]
       rw [List.drop_append_of_le_length (by omega)]
       congr 1
-      rw [← hT1', List.reverse_take, List.reverse_reverse, hA]
+      have := congrArg List.reverse hT1'
+      rw [List.take_reverse, List.reverse_reverse, hA] at this
+      exact this
     rw [hdrop]
     have : mid + T2.length - (mid - T1.length) = T1.reverse.length + T2.length := by
       simp; omega
-    rw [this, List.take_append_eq_append_take]
-    simp [hT2']
+    rw [this, List.take_length_add_append, hT2']
 
 theorem findRange_slice {α : Type} (l : List α) (cmp : α → Ordering) (r : List α)
     (h : findRange l cmp = some r) : r <:+: l ∧ r ≠ [] ∧ ∀ x ∈ r, cmp x = .eq := by
@@ -122,9 +122,381 @@ theorem findRange_slice {α : Type} (l : List α) (cmp : α → Ordering) (r : L
     intro y hy
     rw [List.mem_append, List.mem_reverse] at hy
     rcases hy with hy | hy
-    · have := List.mem_takeWhile_imp hy
+    · have := List.all_eq_true.mp (List.all_takeWhile (p := fun x => cmp x == .eq)
+        (l := (l.take mid).reverse)) y hy
       simpa using this
-    · have := List.mem_takeWhile_imp hy
+    · have := List.all_eq_true.mp (List.all_takeWhile (p := fun x => cmp x == .eq)
+        (l := l.drop mid)) y hy
       simpa using this
+
+/-! ### LEB128 and the string table -/
+
+theorem lebRead_spec (k : Nat) (hk : k ≤ 9) (result : Nat) (bs r : Bytes) (v : Nat)
+    (h : lebRead (7 * k) result bs = some (v, r)) :
+    v < usizeBound ∧ r.length < bs.length ∧ bs.length + k ≤ r.length + 10 ∧ r <:+ bs := by
+  induction bs generalizing k result with
+  | nil => simp [lebRead] at h
+  | cons b t ih =>
+    unfold lebRead at h
+    split at h
+    · cases h
+    · next hc =>
+      simp only at h
+      split at h
+      · simp only [Option.some.injEq, Prod.mk.injEq] at h
+        obtain ⟨rfl, rfl⟩ := h
+        refine ⟨Nat.mod_lt _ (by decide), by simp, by simp; omega, List.suffix_cons _ _⟩
+      · next hb =>
+        have hk' : k + 1 ≤ 9 := by
+          rcases Nat.lt_or_ge k 9 with h' | h'
+          · omega
+          · exfalso
+            have : k = 9 := by omega
+            subst this
+            simp at hc
+            apply hb
+            by_cases h0 : b = 0
+            · subst h0; decide
+            · have := hc h0; subst this; decide
+        have := ih (k + 1) hk' _ (by rw [Nat.mul_add]; exact h)
+        obtain ⟨h1, h2, h3, h4⟩ := this
+        refine ⟨h1, by simp; omega, by simp; omega, h4.trans (List.suffix_cons _ _)⟩
+
+theorem readString_slice (sb : Bytes) (off : Nat) (s : Bytes) (h : readString sb off = some s) :
+    s <:+: sb := by
+  unfold readString at h
+  split at h
+  · cases h
+  · split at h
+    · cases h
+    · next len r hl =>
+      have hsuf := (lebRead_spec 0 (by omega) 0 _ r len hl).2.2.2
+      split at h
+      · cases h
+      · split at h
+        · simp only [Option.some.injEq] at h
+          rw [← h]
+          exact (List.take_prefix _ _).isInfix.trans
+            ((hsuf.trans (List.drop_suffix _ _)).isInfix)
+        · cases h
+
+/-! ### decoding -/
+
+theorem rd32_spec (bs r : Bytes) (v : Nat) (h : rd32 bs = some (v, r)) :
+    v < u32Bound ∧ r <:+ bs := by
+  unfold rd32 at h
+  split at h
+  · next a b c d r' =>
+    simp only [Option.some.injEq, Prod.mk.injEq] at h
+    obtain ⟨rfl, rfl⟩ := h
+    refine ⟨?_, ⟨[a, b, c, d], by simp⟩⟩
+    have := UInt8.toNat_lt a; have := UInt8.toNat_lt b
+    have := UInt8.toNat_lt c; have := UInt8.toNat_lt d
+    simp only [u32Bound]; omega
+  · cases h
+
+theorem rdFields_spec (n : Nat) (bs r : Bytes) (vs : List Nat)
+    (h : rdFields n bs = some (vs, r)) : (∀ v ∈ vs, v < u32Bound) ∧ r <:+ bs := by
+  induction n generalizing bs vs with
+  | zero =>
+    simp only [rdFields, Option.some.injEq, Prod.mk.injEq] at h
+    obtain ⟨rfl, rfl⟩ := h
+    exact ⟨by simp, List.suffix_refl _⟩
+  | succ n ih =>
+    simp only [rdFields] at h
+    split at h
+    · cases h
+    · next v r1 h1 =>
+      split at h
+      · cases h
+      · next vs' r2 h2 =>
+        simp only [Option.some.injEq, Prod.mk.injEq] at h
+        obtain ⟨rfl, rfl⟩ := h
+        obtain ⟨a1, a2⟩ := rd32_spec _ _ _ h1
+        obtain ⟨b1, b2⟩ := ih _ _ h2
+        refine ⟨?_, b2.trans a2⟩
+        intro x hx
+        rcases List.mem_cons.mp hx with rfl | hx
+        · exact a1
+        · exact b1 x hx
+
+theorem RawClass.ofFields_fields (fs : List Nat) (k : RawClass)
+    (h : RawClass.ofFields fs = some k) : k.fields = fs := by
+  unfold RawClass.ofFields at h
+  split at h
+  · cases h; rfl
+  · cases h
+
+theorem RawMember.ofFields_fields (fs : List Nat) (k : RawMember)
+    (h : RawMember.ofFields fs = some k) : k.fields = fs := by
+  unfold RawMember.ofFields at h
+  split at h
+  · cases h; rfl
+  · cases h
+
+theorem rdClasses_spec (n : Nat) (bs r : Bytes) (cs : List RawClass)
+    (h : rdClasses n bs = some (cs, r)) :
+    (∀ k ∈ cs, ∀ v ∈ k.fields, v < u32Bound) ∧ r <:+ bs := by
+  induction n generalizing bs cs with
+  | zero =>
+    simp only [rdClasses, Option.some.injEq, Prod.mk.injEq] at h
+    obtain ⟨rfl, rfl⟩ := h
+    exact ⟨by simp, List.suffix_refl _⟩
+  | succ n ih =>
+    simp only [rdClasses] at h
+    split at h
+    · cases h
+    · next fs r1 h1 =>
+      split at h
+      · next c cs' r2 hc h2 =>
+        simp only [Option.some.injEq, Prod.mk.injEq] at h
+        obtain ⟨rfl, rfl⟩ := h
+        obtain ⟨a1, a2⟩ := rdFields_spec _ _ _ _ h1
+        obtain ⟨b1, b2⟩ := ih _ _ h2
+        refine ⟨?_, b2.trans a2⟩
+        intro x hx
+        rcases List.mem_cons.mp hx with rfl | hx
+        · rw [RawClass.ofFields_fields _ _ hc]; exact a1
+        · exact b1 x hx
+      · cases h
+
+theorem rdMembers_spec (n : Nat) (bs r : Bytes) (cs : List RawMember)
+    (h : rdMembers n bs = some (cs, r)) :
+    (∀ k ∈ cs, ∀ v ∈ k.fields, v < u32Bound) ∧ r <:+ bs := by
+  induction n generalizing bs cs with
+  | zero =>
+    simp only [rdMembers, Option.some.injEq, Prod.mk.injEq] at h
+    obtain ⟨rfl, rfl⟩ := h
+    exact ⟨by simp, List.suffix_refl _⟩
+  | succ n ih =>
+    simp only [rdMembers] at h
+    split at h
+    · cases h
+    · next fs r1 h1 =>
+      split at h
+      · next c cs' r2 hc h2 =>
+        simp only [Option.some.injEq, Prod.mk.injEq] at h
+        obtain ⟨rfl, rfl⟩ := h
+        obtain ⟨a1, a2⟩ := rdFields_spec _ _ _ _ h1
+        obtain ⟨b1, b2⟩ := ih _ _ h2
+        refine ⟨?_, b2.trans a2⟩
+        intro x hx
+        rcases List.mem_cons.mp hx with rfl | hx
+        · rw [RawMember.ofFields_fields _ _ hc]; exact a1
+        · exact b1 x hx
+      · cases h
+
+theorem alignSkip_suffix (off : Nat) (rest r : Bytes) (h : alignSkip off rest = some r) :
+    r <:+ rest := by
+  unfold alignSkip at h
+  split at h
+  · cases h
+  · cases h; exact List.drop_suffix _ _
+
+theorem parse_spec (buf : Bytes) (c : Cache) (h : Cache.parse buf = .ok c) :
+    c.strings <:+ buf ∧
+    (∀ k ∈ c.classes, ∀ v ∈ k.fields, v < u32Bound) ∧
+    (∀ m ∈ c.members, ∀ v ∈ m.fields, v < u32Bound) ∧
+    (∀ m ∈ c.byParams, ∀ v ∈ m.fields, v < u32Bound) := by
+  unfold Cache.parse at h
+  split at h
+  · next magic version nc nm nb sb r0 h0 =>
+    split at h
+    · cases h
+    split at h
+    · cases h
+    split at h
+    · cases h
+    split at h
+    · cases h
+    next r1 h1 =>
+    split at h
+    · cases h
+    split at h
+    · cases h
+    next classes r2 h2 =>
+    simp only at h
+    split at h
+    · cases h
+    next r3 h3 =>
+    split at h
+    · cases h
+    split at h
+    · cases h
+    next members r4 h4 =>
+    split at h
+    · cases h
+    next r5 h5 =>
+    split at h
+    · cases h
+    split at h
+    · cases h
+    next byParams r6 h6 =>
+    split at h
+    · cases h
+    next strings h7 =>
+    split at h
+    · cases h
+    simp only [Except.ok.injEq] at h
+    subst h
+    have s0 := (rdFields_spec _ _ _ _ h0).2
+    have s1 := alignSkip_suffix _ _ _ h1
+    obtain ⟨f2, s2⟩ := rdClasses_spec _ _ _ _ h2
+    have s3 := alignSkip_suffix _ _ _ h3
+    obtain ⟨f4, s4⟩ := rdMembers_spec _ _ _ _ h4
+    have s5 := alignSkip_suffix _ _ _ h5
+    obtain ⟨f6, s6⟩ := rdMembers_spec _ _ _ _ h6
+    have s7 := alignSkip_suffix _ _ _ h7
+    exact ⟨s7.trans (s6.trans (s5.trans (s4.trans (s3.trans (s2.trans (s1.trans s0)))))),
+      f2, f4, f6⟩
+  · cases h
+
+/-! ### queries -/
+
+theorem str_slice (c : Cache) (off : Nat) (s : Bytes) (h : c.str off = some s) :
+    s <:+: c.strings := readString_slice _ _ _ h
+
+theorem sliceOf_infix {α : Type} (l : List α) (a b : Nat) (r : List α)
+    (h : Cache.sliceOf l a b = some r) : r <:+: l := by
+  unfold Cache.sliceOf at h
+  split at h
+  · cases h
+  · cases h; exact slice_infix _ _ _
+
+theorem splitOnce_prefix (c : UInt8) (s a b : Bytes) (h : splitOnce c s = some (a, b)) :
+    a <+: s := by
+  unfold splitOnce at h
+  split at h
+  · cases h
+  · cases h; exact List.takeWhile_prefix _
+
+theorem rsplitOnce_suffix (c : UInt8) (s a b : Bytes) (h : rsplitOnce c s = some (a, b)) :
+    b <:+ s := by
+  unfold rsplitOnce at h
+  split at h
+  · cases h
+  · next a' b' h' =>
+    cases h
+    have := splitOnce_prefix _ _ _ _ h'
+    have := List.reverse_suffix.mpr this
+    simpa using this
+
+theorem extractClassName_infix (s : Bytes) : extractClassName s <:+: s := by
+  unfold extractClassName
+  refine (List.takeWhile_prefix _).isInfix.trans ?_
+  split
+  · next l h => exact (rsplitOnce_suffix _ _ _ _ h).isInfix
+  · exact List.infix_refl _
+
+theorem getD_str_slice (c : Cache) (off : Nat) (d : Bytes) :
+    (c.str off).getD d <:+: c.strings ∨ (c.str off).getD d = d := by
+  cases h : c.str off with
+  | none => right; rfl
+  | some s => left; exact str_slice c off s h
+
+theorem satAdd_le (a b : Nat) : satAdd a b ≤ usizeMax := by
+  unfold satAdd
+  split
+  · simp only [usizeBound, usizeMax] at *; omega
+  · exact Nat.le_refl _
+
+theorem lineFrame_spec (c : Cache) (fr : Frame) (m : RawMember) (f : Frame)
+    (h : c.lineFrame fr m = some f) :
+    (f.cls <:+: c.strings ∨ f.cls = fr.cls) ∧ f.method <:+: c.strings ∧
+    (∀ x, f.file = some x → x <:+: c.strings ∨ x <:+: f.cls ∨ fr.file = some x) ∧
+    f.params = fr.params ∧ (m.origStartline < usizeBound → f.line < usizeBound) := by
+  unfold Cache.lineFrame at h
+  split at h
+  · cases h
+  simp only at h
+  split at h
+  · next file method hf hm =>
+    simp only [Option.some.injEq] at h
+    subst h
+    refine ⟨getD_str_slice _ _ _, str_slice _ _ _ hm, ?_, rfl, ?_⟩
+    · intro x hx
+      simp only at hx
+      subst hx
+      split at hf
+      · split at hf
+        · cases hf
+        · next fname hfn =>
+          split at hf
+          · simp only [Option.some.injEq] at hf
+            right; left; rw [← hf]; exact extractClassName_infix _
+          · simp only [Option.some.injEq] at hf
+            left; rw [← hf]; exact str_slice _ _ _ hfn
+      · split at hf
+        · cases hf
+        · simp only [Option.some.injEq] at hf
+          right; right; exact hf
+    · intro hos
+      simp only
+      split
+      · exact hos
+      · have := satAdd_le m.origStartline fr.line
+        simp only [usizeBound, usizeMax] at *; omega
+  · cases h
+
+theorem paramFrames_spec (c : Cache) (fr : Frame) (ms : List RawMember) :
+    ∀ f ∈ c.paramFrames fr ms,
+      (f.cls <:+: c.strings ∨ f.cls = fr.cls) ∧ f.method <:+: c.strings ∧
+      f.file = none ∧ f.params = fr.params ∧ f.line = 0 := by
+  induction ms with
+  | nil => simp [Cache.paramFrames]
+  | cons m ms ih =>
+    intro f hf
+    simp only [Cache.paramFrames] at hf
+    split at hf
+    · cases hf
+    · next method hm =>
+      rcases List.mem_cons.mp hf with rfl | hf
+      · exact ⟨getD_str_slice _ _ _, str_slice _ _ _ hm, rfl, rfl, rfl⟩
+      · exact ih f hf
+
+theorem getClass_mem (c : Cache) (name : Bytes) (k : RawClass) (h : c.getClass name = some k) :
+    k ∈ c.classes := by
+  unfold Cache.getClass at h
+  split at h
+  · cases h
+  · exact List.mem_of_getElem? h
+
+/-- every frame returned by `remapFrame` is produced by `lineFrame` on a member of the cache
+    or by `paramFrames`, from the query frame with its class replaced by a table string -/
+theorem remapFrame_spec (c : Cache) (q : Frame) :
+    ∀ f ∈ c.remapFrame q, ∃ orig, orig <:+: c.strings ∧
+      ((∃ m ∈ c.members, c.lineFrame { q with cls := orig } m = some f) ∨
+       (∃ ms, f ∈ c.paramFrames { q with cls := orig } ms)) := by
+  intro f hf
+  unfold Cache.remapFrame at hf
+  split at hf
+  · cases hf
+  next k hk =>
+  split at hf
+  · cases hf
+  next orig ho =>
+  refine ⟨orig, str_slice _ _ _ ho, ?_⟩
+  simp only at hf
+  split at hf
+  · next p hp =>
+    split at hf
+    · cases hf
+    split at hf
+    · cases hf
+    next ms hms r hr =>
+    right; exact ⟨r, hf⟩
+  · next hp =>
+    split at hf
+    · cases hf
+    next ms hms =>
+    split at hf
+    · cases hf
+    next r hr =>
+    left
+    obtain ⟨m, hm, hmf⟩ := List.mem_filterMap.mp hf
+    refine ⟨m, ?_, hmf⟩
+    have h1 := (findRange_slice _ _ _ hr).1
+    have h2 := sliceOf_infix _ _ _ _ hms
+    exact (h1.trans h2).subset hm
 
 end PG
